@@ -15,6 +15,7 @@ use write_fonts::tables::variations::ivs_builder::RemapVariationIndices;
 
 use crate::gen::*;
 use crate::model::*;
+use crate::order::RuleIndex;
 use crate::plan::*;
 use crate::walk::*;
 
@@ -52,6 +53,15 @@ struct Stats {
     ext_lookups: usize,
     lookups_split: usize,
     stage1_skipped: usize,
+    order_lookups: u64,
+    order_queries: u64,
+    order_glyph_rule: u64,
+    order_first_rule_value: u64,
+    order_first_rule_value_contested: u64,
+    order_zero_shadowed: u64,
+    order_no_rule: u64,
+    order_exact_dup_override: u64,
+    order_other_builder: u64,
 }
 
 fn extras(v: &mut Vec<u16>, rng: &mut Rng, sample_from: &[u16]) {
@@ -91,6 +101,9 @@ pub fn run_case(ctx: &mut Ctx, spec: &CaseSpec) {
             LookupSpec::Mark(bs) => plans.push(Plans::Mark(
                 bs.iter().enumerate().map(|(j, s)| gen_mark_plan(&mut rng, &env, s, j)).collect(),
             )),
+            LookupSpec::PairOrder(bs) => plans.push(Plans::Pair(
+                bs.iter().enumerate().map(|(j, s)| gen_order_plan(&mut rng, &env, s, j)).collect(),
+            )),
         }
     }
     // lookup flags / mark filtering sets must survive splitting and promotion
@@ -110,7 +123,7 @@ pub fn run_case(ctx: &mut Ctx, spec: &CaseSpec) {
                 for p in v {
                     n_rules += p.n_rules();
                     n_glyph_rules += p.gmap.len();
-                    n_class_rules += p.cmap.len();
+                    n_class_rules += p.cmap.len() + p.orules.len();
                     n_dups += p.n_dups;
                 }
             }
@@ -376,7 +389,21 @@ pub fn run_case(ctx: &mut Ctx, spec: &CaseSpec) {
                     LookupSpec::Pair(bs) => bs.iter().any(|b| b.overlap_prev),
                     _ => false,
                 };
-                let stage1 = om.f2_coverage_overlaps() == 0 && !by_design;
+                let has_orules = pp.iter().any(|p| !p.orules.is_empty());
+                let stage1 = om.f2_coverage_overlaps() == 0 && !by_design && !has_orules;
+                // the rule-ORDER oracle (order.rs) takes over where stage 1 cannot run
+                let ridx: Vec<RuleIndex> = if stage1 { vec![] } else { pp.iter().map(RuleIndex::new).collect() };
+                if !stage1 {
+                    st.order_lookups += 1;
+                    for r in &ridx {
+                        ctx.count("order:class_rules", r.rules.len() as u64);
+                        ctx.count("order:exact_duplicate_class_rules", r.n_exact_duplicates() as u64);
+                    }
+                    if om.n_f2 > 1 {
+                        ctx.count("order:lookups_with_several_class_subtables", 1);
+                    }
+                    ctx.count("order:class_subtables_built", om.n_f2 as u64);
+                }
                 if by_design {
                     ctx.count("lookups_shadowed_by_design", 1);
                 }
@@ -388,6 +415,9 @@ pub fn run_case(ctx: &mut Ctx, spec: &CaseSpec) {
                 for p in pp {
                     firsts.extend(p.gmap.keys().map(|k| k.0));
                     firsts.extend(p.class1_of.keys().copied());
+                    for (s1, _, _) in &p.orules {
+                        firsts.extend(s1.iter().copied());
+                    }
                 }
                 firsts.sort_unstable();
                 firsts.dedup();
@@ -400,6 +430,9 @@ pub fn run_case(ctx: &mut Ctx, spec: &CaseSpec) {
                     seconds.extend(p.gmap.keys().map(|k| k.1));
                     for m in &p.class2_of {
                         seconds.extend(m.keys().copied());
+                    }
+                    for (_, s2, _) in &p.orules {
+                        seconds.extend(s2.iter().copied());
                     }
                 }
                 seconds.sort_unstable();
@@ -537,6 +570,141 @@ pub fn run_case(ctx: &mut Ctx, spec: &CaseSpec) {
                         if violated {
                             break;
                         }
+                    }
+                    // ---- rule-ORDER oracle (overlapping class sets): rules vs owned tables and vs compiled bytes
+                    if !stage1 {
+                        let views: Vec<Option<crate::order::G1View>> = ridx.iter().map(|r| r.view(*g1)).collect();
+                        let zero = pair_sem(&None);
+                        let mut allowed: Vec<Pair> = vec![];
+                        for (i, g2) in qs.iter().enumerate() {
+                            allowed.clear();
+                            let mut zero_ok = true;
+                            let mut why = "no rule of the lookup contains the pair";
+                            let mut glyph_rule = false;
+                            let mut first: Option<(usize, u32)> = None;
+                            let mut n_sets = 0usize;
+                            for (pi, p) in pp.iter().enumerate() {
+                                let mut want = |r: &Rule, env: &mut Env| -> Pair {
+                                    match exp_cache[pi].get(r) {
+                                        Some(e) => *e,
+                                        None => {
+                                            let e = p.expect(r, env);
+                                            exp_cache[pi].insert(*r, e);
+                                            e
+                                        }
+                                    }
+                                };
+                                if let Some(r) = p.gmap.get(&(*g1, *g2)) {
+                                    allowed.push(want(r, &mut env));
+                                    zero_ok = false;
+                                    glyph_rule = true;
+                                    why = "first glyph-pair rule for the pair (format 1 subtables precede the builder's class subtables)";
+                                    break;
+                                }
+                                if let Some(v) = &views[pi] {
+                                    // some class subtable of this builder covers g1: the lookup ends here
+                                    let (f, n) = ridx[pi].first(v, *g2);
+                                    n_sets = n;
+                                    if let Some(f) = f {
+                                        first = Some((pi, f));
+                                        allowed.push(want(&ridx[pi].rules[f as usize].2, &mut env));
+                                        for d in ridx[pi].exact_duplicates_after(f) {
+                                            allowed.push(want(&ridx[pi].rules[*d as usize].2, &mut env));
+                                        }
+                                        zero_ok = v.l0 < f;
+                                        why = if zero_ok {
+                                            "value of the first inserted class rule containing the pair, or no adjustment (an earlier-inserted rule has the first glyph in its class-1 set)"
+                                        } else {
+                                            "value of the first inserted class rule containing the pair (no earlier rule has the first glyph in class 1)"
+                                        };
+                                    } else {
+                                        why = "the first glyph is in class-1 sets of this builder but no rule contains the pair: no adjustment";
+                                    }
+                                    if pi > 0 {
+                                        st.order_other_builder += 1;
+                                    }
+                                    break;
+                                }
+                            }
+                            let n_sides = if rm.is_some() { 2 } else { 1 };
+                            for side in 0..n_sides {
+                                let got = if side == 0 { &o_out[i] } else { &r_out[i] };
+                                let gs = pair_sem(got);
+                                let k = allowed.iter().position(|a| (a.0.sem(), a.1.sem()) == gs);
+                                let ok = k.is_some() || (zero_ok && gs == zero);
+                                if side == 0 && ok {
+                                    if glyph_rule {
+                                        st.order_glyph_rule += 1;
+                                    } else if first.is_none() {
+                                        st.order_no_rule += 1;
+                                    } else if k == Some(0) {
+                                        st.order_first_rule_value += 1;
+                                        if n_sets > 1 {
+                                            st.order_first_rule_value_contested += 1;
+                                        }
+                                    } else if k.is_some() {
+                                        st.order_exact_dup_override += 1;
+                                    } else {
+                                        st.order_zero_shadowed += 1;
+                                    }
+                                }
+                                if !ok {
+                                    // which rule's value is it, if any?
+                                    let mut culprit: Option<(usize, usize)> = None;
+                                    'find: for (pi, p) in pp.iter().enumerate() {
+                                        for (ri, (_, _, r)) in ridx[pi].rules.iter().enumerate() {
+                                            let e = p.expect(r, &mut env);
+                                            if (e.0.sem(), e.1.sem()) == gs {
+                                                culprit = Some((pi, ri));
+                                                break 'find;
+                                            }
+                                        }
+                                    }
+                                    let show_rule = |pi: usize, ri: usize| -> Value {
+                                        let p = &pp[pi];
+                                        let n_c = p.crules.len();
+                                        if ri < n_c {
+                                            let (g, a, b, _) = p.crules[ri];
+                                            json!({"builder": pi, "rule": ri, "class1": p.groups[g as usize].c1[a as usize], "class2": p.groups[g as usize].c2[b as usize]})
+                                        } else {
+                                            let (s1, s2, _) = &p.orules[ri - n_c];
+                                            json!({"builder": pi, "rule": ri, "class1": s1, "class2": s2})
+                                        }
+                                    };
+                                    let rules_dump: Vec<Value> = if pp.iter().map(|p| p.crules.len() + p.orules.len()).sum::<usize>() <= 16 {
+                                        pp.iter().enumerate().flat_map(|(pi, p)| (0..p.crules.len() + p.orules.len()).map(move |ri| (pi, ri))).map(|(pi, ri)| show_rule(pi, ri)).collect()
+                                    } else {
+                                        vec![]
+                                    };
+                                    ctx.violation(
+                                        &format!("pair-rule-order:{}:L{}:g1={}:g2={}:{}", label, li, g1, g2, if side == 0 { "owned" } else { "compiled" }),
+                                        case_json(json!({
+                                            "what": "class pair rules: the lookup does not give this glyph pair the adjustment of the first inserted rule that contains it",
+                                            "observed_in": if side == 0 { "builder output (owned PairPos subtables)" } else { "compiled bytes" },
+                                            "lookup": li, "g1": g1, "g2": g2,
+                                            "expected": why,
+                                            "first_rule_containing_pair": first.map(|(pi, f)| show_rule(pi, f as usize)),
+                                            "allowed_values": allowed.iter().map(|a| show_pair(&Some(*a), &env.it)).collect::<Vec<_>>(),
+                                            "no_adjustment_allowed": zero_ok,
+                                            "lookup_says": show_pair(got, &env.it),
+                                            "that_is_the_value_of_rule": culprit.map(|(pi, ri)| show_rule(pi, ri)),
+                                            "owned_subtables": om.subs.len(), "class_subtables": om.n_f2,
+                                            "all_class_rules_in_insertion_order": rules_dump,
+                                        })),
+                                        if side == 0 { None } else { bytes.as_deref() },
+                                    );
+                                    violated = true;
+                                    break;
+                                }
+                            }
+                            if violated {
+                                break;
+                            }
+                        }
+                        if violated {
+                            break;
+                        }
+                        st.order_queries += qs.len() as u64;
                     }
                     st.pair_queries += qs.len() as u64;
                 }
@@ -745,6 +913,15 @@ pub fn run_case(ctx: &mut Ctx, spec: &CaseSpec) {
     ctx.count("device_or_varidx_records_distinct", env.it.len() as u64);
     ctx.count("subtables_before_compile", st.sub_before as u64);
     ctx.count("lookups_with_overlapping_class_coverage(stage 1 skipped)", st.stage1_skipped as u64);
+    ctx.count("order:lookups_checked_by_rule_order_oracle", st.order_lookups);
+    ctx.count("order:pair_queries", st.order_queries);
+    ctx.count("order:pairs_decided_by_glyph_pair_rule", st.order_glyph_rule);
+    ctx.count("order:pairs_with_value_of_first_inserted_rule", st.order_first_rule_value);
+    ctx.count("order:pairs_with_value_of_first_inserted_rule(several class-2 sets of matching rules)", st.order_first_rule_value_contested);
+    ctx.count("order:pairs_with_no_adjustment_shadowed_by_earlier_rule", st.order_zero_shadowed);
+    ctx.count("order:pairs_in_no_rule", st.order_no_rule);
+    ctx.count("order:pairs_with_value_of_later_exact_duplicate_rule(accepted)", st.order_exact_dup_override);
+    ctx.count("order:pairs_decided_in_second_builder", st.order_other_builder);
     if bytes.is_some() {
         ctx.count("compiled_cases", 1);
         ctx.count("compiled_bytes", bytes.as_ref().unwrap().len() as u64);
